@@ -1347,6 +1347,11 @@ class Evaluator(object):
             kw2 = dict((k, v) for k, v in kwargs.items() if k != "inplace")
             st.locals[src_name] = ("mcall", recv, name, tuple(args), tuple(sorted(kw2.items())))
             return NONE
+        if (name == "append" and src_name is not None and len(args) == 1 and isinstance(recv, tuple) and recv and recv[0] == "list" and st.locals.get(src_name) == recv
+                and not any(getattr(l_, "is_while", False) or True for l_ in frame.loops if src_name in getattr(l_, "appends", {})) and not frame.loops):
+            # xs = [..]; xs.append(a)   outside any loop: the literal grows
+            st.locals[src_name] = recv + (args[0],)
+            return NONE
         if name in ("append", "extend") and src_name is not None and frame.loops and len(args) == 1 and isinstance(recv, tuple) and recv and recv[0] in ("list", "listacc"):
             loop = frame.loops[-1]
             if recv[0] == "list" and (len(recv) == 1 or name == "extend" or src_name in loop.appends or True) and not getattr(loop, "is_while", False) and st.locals.get(src_name) == recv:
